@@ -13,6 +13,7 @@ import (
 	"sort"
 	"strings"
 	"sync/atomic"
+	"verif/internal/report"
 
 	"github.com/lugu/qiloop/type/basic"
 )
@@ -311,8 +312,8 @@ func buildGroups(ts []*target, tier string) []*group {
 		}
 		if tier == "thorough" {
 			// every prefix of the repository's own IDL files (read-only)
-			files, _ := filepath.Glob("/repo/bus/*.idl")
-			more, _ := filepath.Glob("/repo/bus/directory/*.idl")
+			files, _ := filepath.Glob(report.RepoDir() + "/bus/*.idl")
+			more, _ := filepath.Glob(report.RepoDir() + "/bus/directory/*.idl")
 			files = append(files, more...)
 			sort.Strings(files)
 			for _, f := range files {
